@@ -75,14 +75,13 @@ mod k {
         }
     }
 
-    /// VERIF: {"p":"C02","tier":"quick","fns":["Ipv4Subnet::new","Ipv4Subnet::netmask"],"bounds":"all 2^32 addresses x prefix lengths 33..=63 (where the u64 shift does not overflow)","oracle":"Err(InvalidSubnet): there is no IPv4 prefix longer than /32 (split from c02_ipv4subnet_new_total_any_u8_len so the two failure modes - accepted over-long prefix / shift overflow - are reported separately)","covers":1}
+    /// VERIF: {"p":"C02","tier":"quick","fns":["Ipv4Subnet::new","Ipv4Subnet::netmask"],"bounds":"all 2^32 addresses x prefix lengths 33..=63 (where the u64 shift does not overflow)","oracle":"Err(InvalidSubnet): there is no IPv4 prefix longer than /32 (split from c02_ipv4subnet_new_total_any_u8_len so the two failure modes - accepted over-long prefix / shift overflow - are reported separately; no cover!: every input of this harness violates the oracle on the current code, and the runner cannot tell a cover witness from a counterexample with the same values)","covers":0}
     #[kani::proof]
     fn c02_ipv4subnet_new_rejects_len_33_to_63() {
         let a: u32 = kani::any();
         let len: u8 = kani::any();
         kani::assume(len > 32 && len < 64);
         let r = Ipv4Subnet::new(Ipv4Addr::from(a), len);
-        kani::cover!(len == 63 && a == 0xc000_0201, "reached (192.0.2.1/63)");
         assert!(r.is_err(), "prefix lengths 33..=63 are refused");
     }
 
